@@ -27,6 +27,7 @@
 //	                   section of a mutex captured from the same scope)
 //	R6 init time       accesses in package-level initialisers and func init() run before any goroutine
 //	                   of a client exists
+//	R7 sentinel error  an `error` built by errors.New / fmt.Errorf and never assigned
 package main
 
 import (
@@ -249,8 +250,11 @@ func isSyncType(t types.Type) bool {
 		return false
 	}
 	pp := n.Obj().Pkg().Path()
-	return pp == "sync" || pp == "sync/atomic"
+	return pp == "sync" || pp == "sync/atomic" || goroutineSafe[pp+"."+n.Obj().Name()]
 }
+
+// goroutineSafe: standard-library types documented as safe for concurrent use (table, trusted)
+var goroutineSafe = map[string]bool{"regexp.Regexp": true, "strings.Replacer": true, "log.Logger": true, "time.Location": true}
 
 func isMutexType(t types.Type) bool {
 	if !isSyncType(t) {
@@ -1383,7 +1387,12 @@ func kindOf(t types.Type) string {
 func (a *analysis) classify(g *global, uses []use) {
 	v := g.v
 	if g.Kind == "sync" {
-		g.Class, g.Evidence = "synchronised", "sync primitive ("+types.TypeString(v.Type(), nil)+")"
+		g.Class, g.Evidence = "synchronised", "sync primitive or type documented as safe for concurrent use ("+types.TypeString(v.Type(), nil)+")"
+		for _, u := range uses {
+			if !u.init && (u.cat == "assign" || u.cat == "field-write" || u.cat == "elem-write") && u.gi.key == "" {
+				g.Class, g.Evidence = "unsynchronised-mutable", "the variable itself is overwritten: "+u.cat+" in "+u.fn
+			}
+		}
 		return
 	}
 	cats := map[string]bool{}
@@ -1482,6 +1491,16 @@ func (a *analysis) classify(g *global, uses []use) {
 		g.Class, g.Evidence = "immutable", "R1 "+usesStr
 		return
 	}
+	// R7: a sentinel error built by errors.New / fmt.Errorf and never assigned: its value has no exported way to change
+	if g.Kind == "interface" && types.TypeString(v.Type(), nil) == "error" && g.init != nil {
+		if c, ok := ast.Unparen(g.init).(*ast.CallExpr); ok {
+			if o, _ := calleeOf(g.p, c); o != nil && o.Pkg() != nil &&
+				((o.Pkg().Path() == "errors" && o.Name() == "New") || (o.Pkg().Path() == "fmt" && o.Name() == "Errorf")) {
+				g.Class, g.Evidence = "immutable", "R7 sentinel error built by "+o.Pkg().Path()+"."+o.Name()+"; "+usesStr
+				return
+			}
+		}
+	}
 	// aliases exist: R3, R4
 	if g.Kind == "slice" && g.init != nil {
 		if cl, ok := ast.Unparen(g.init).(*ast.CompositeLit); ok && len(cl.Elts) == 0 {
@@ -1532,7 +1551,8 @@ func uniq(xs []string) []string {
 // stateless: packages whose package-level functions keep no state between calls (table, trusted)
 var stateless = map[string]bool{"strings": true, "strconv": true, "bytes": true, "unicode": true, "unicode/utf8": true,
 	"errors": true, "sort": true, "math": true, "math/bits": true, "slices": true, "maps": true, "io": true, "hash/fnv": true,
-	"iter": true, "cmp": true, "unsafe": true, "hash": true, "golang.org/x/exp/constraints": true}
+	"iter": true, "cmp": true, "unsafe": true, "hash": true, "golang.org/x/exp/constraints": true,
+	"regexp": true, "encoding/binary": true, "encoding/hex": true, "container/heap": true, "container/list": true, "unicode/utf16": true}
 
 func stdClass(pkg, name string, isVar bool) (string, string) {
 	switch {
